@@ -129,6 +129,12 @@ def r_transform(ck: Checker) -> None:
         m = re.fullmatch(r"\[(\w+)for\1inrange\((?:0,)?(.+)\.arity\)if\1inself\.used_positions\[\2\]\]\[\*\]", org)
         arg = unparse(it.expand(app.args[0], st))
         ok = m is not None and arg.endswith(f".arguments[{pos}]")
+        if m is None:
+            # the same selection written as a filter on the loop: for pos in range(P.arity): if pos in used_positions[P]: ...
+            m2 = re.fullmatch(r"range\((?:0,)?(.+)\.arity\)\[\*\]", org)
+            if m2 is not None and arg.endswith(f".arguments[{pos}]"):
+                key = ast.parse(st.origin.get(pos, "")[:-3], mode="eval").body.args[-1].value  # type: ignore[attr-defined]
+                ok = it.holds(app, f"{pos} in self.used_positions[{unparse(key)}]")
         detail = f"positions from `{st.origin.get(pos)}`, kept argument `{arg}`"
     ck.add("kept positions = observed positions, in order", ok, func, app, detail, "dropping an observed position changes the meaning of every rule that reads it")
     names = resolved_calls(ck.prg, func, f"ngo.{CLS}._new_name")
